@@ -235,9 +235,10 @@ pub fn gen_object(rng: &mut Rng, enc: Enc, o: &GenOpts) -> (ObjSpec, ObjModel) {
         let n = rng.usize_below(12);
         let mut entries: Vec<(u64, u64)> = Vec::new();
         for _ in 0..n {
-            let tag = match rng.below(5) {
+            let tag = match rng.below(6) {
                 0 => rng.boundary(if enc.c64 { 64 } else { 32 }),
                 1 => 0x6fff_fffe,
+                2 => crate::abi_table::pick(rng, "DT_", &[1, 5, 6, 10, 11, 14, 0x6fff_fef5], 64) & if enc.c64 { u64::MAX } else { 0xffff_ffff },
                 _ => 1 + rng.below(35),
             };
             entries.push((tag, rng.boundary(if enc.c64 { 64 } else { 32 })));
